@@ -9,6 +9,7 @@
 import PygModel.Bitemp
 import PygProofs.Lemmas.BitempLemmas
 import PygProofs.Lemmas.BitempInv
+import PygProofs.Lemmas.BitempFrames
 
 namespace Pyg.Props.C17
 open Pyg Pyg.Bitemp
@@ -859,5 +860,100 @@ example : OrderedF [BiShift [(1, some 5), (2, some 6)] 3, BiShift [(1, some 5), 
       simp only [List.mem_cons, List.not_mem_nil, or_false] at hf
       rcases hf with rfl | rfl <;> decide
     · simp [BiShift]⟩
+
+
+/-! ### what is NOT an invariant of the store: "no two consecutive equal values" -/
+
+theorem revertDemo_store :
+    history revertDemo = some [⟨1, 10, some 3⟩, ⟨1, 11, some 5⟩, ⟨1, 12, some 5⟩] := by
+  have e1 : mergeFrames [[(⟨1, 10, some 3⟩ : Row)], [⟨1, 11, some 5⟩]] = [⟨1, 10, some 3⟩, ⟨1, 11, some 5⟩] := by
+    rw [mergeFrames_single 1 _ _ (by decide) (by decide) (by unfold SortedLe; decide)]; decide
+  have e2 : mergeFrames [[(⟨1, 10, some 3⟩ : Row), ⟨1, 11, some 5⟩], [⟨1, 12, some 6⟩]] =
+      [⟨1, 10, some 3⟩, ⟨1, 11, some 5⟩, ⟨1, 12, some 6⟩] := by
+    rw [mergeFrames_single 1 _ _ (by decide) (by decide) (by unfold SortedLe; decide)]; decide
+  have e3 : mergeFrames [[(⟨1, 10, some 3⟩ : Row), ⟨1, 11, some 5⟩, ⟨1, 12, some 6⟩], [⟨1, 12, some 5⟩]] =
+      [⟨1, 10, some 3⟩, ⟨1, 11, some 5⟩, ⟨1, 12, some 5⟩] := by
+    rw [mergeFrames_single 1 _ _ (by decide) (by decide) (by unfold SortedLe; decide)]; decide
+  simp only [history, revertDemo, List.foldl_cons, List.foldl_nil, biMerge, Bi, List.map_cons, List.map_nil, e1, e2, e3]
+
+/-- **"no two consecutive equal visible values" is not an invariant** (g4, item 4): after `3@10, 5@11, 6@12, 5@12` - a revert
+    merged under the stamp of the version it reverts - the store holds `5@11` directly followed by `5@12`:
+    `drop_duplicates(keep='last')` runs AFTER the repeat test and removes the `6@12` that separated them.  The reads the
+    property names are unaffected (`read_spec`); `what=-2` sees the difference. -/
+theorem no_consecutive_repeats_fails :
+    ∃ log, Ordered log ∧ ∃ st, history log = some st ∧ bi_store_invariant st ∧
+      ∃ pre a b post, group 1 st = pre ++ a :: b :: post ∧ a.val = b.val ∧ a.val ≠ Option.none := by
+  have ho : Ordered revertDemo := ⟨by simp [revertDemo], by decide, by decide⟩
+  refine ⟨revertDemo, ho, _, revertDemo_store, ?_, ?_⟩
+  · obtain ⟨st', hst', hi, _⟩ := read_spec_frames _ (by
+      refine ⟨by simp [revertDemo], by decide, ?_⟩
+      intro d
+      exact (logRows_sorted revertDemo ho.stamps).sublist
+        (by rw [← frames_flatten]; exact List.filter_sublist) : OrderedF (revertDemo.map fun v => Bi v.ts v.stamp)) Option.none
+    rw [← history_eq_historyF, revertDemo_store] at hst'
+    cases hst'; exact hi
+  · exact ⟨[⟨1, 10, some 3⟩], ⟨1, 11, some 5⟩, ⟨1, 12, some 5⟩, [], by decide, rfl, by simp⟩
+
+
+/-! ## g4: frames with several value columns.  `_drop_repeats` works per ROW: the mask is `repeats.min(axis=1)` (a row is dropped
+    only if EVERY column repeats its forward-filled predecessor) and the rows kept are the RAW rows, not the forward-filled ones.
+    So the per-column restatement of `read_spec` is FALSE for frames (model and code, probes in docs/notes/C17.md): the theorems
+    below are the witnesses, and `frame_one_column` ties the frame model to the series model for width 1. -/
+
+/-- `_drop_repeats` is per row: the row after the first is kept iff SOME column's forward-filled value differs from (or is NaN
+    like) the forward-filled value above it - stated on two rows -/
+theorem frame_mask_per_row (a b : RowF) (h : a.stamp ≠ b.stamp) :
+    dropRepeatsF [a, b] = if allRepeat (List.zipWith Option.or b.vals a.vals) a.vals then [a] else [a, b] := by
+  have h' : (b.stamp == a.stamp) = false := by simpa using fun e => h e.symm
+  by_cases hr : allRepeat (List.zipWith Option.or b.vals a.vals) a.vals = true
+  · simp [dropRepeatsF, ffillF, ffillFromF, hr, keepLastF]
+  · simp only [Bool.not_eq_true] at hr
+    simp [dropRepeatsF, ffillF, ffillFromF, hr, keepLastF, h']
+
+/-- two-column history: `(a, b) = (1, 1)` stamped 10, then `(NaN, 2)` stamped 11 -/
+def frameDemo : List (Int × TSF) := [(10, [(1, [some 1, some 1])]), (11, [(1, [Option.none, some 2])])]
+
+theorem frameDemo_store : historyFF frameDemo = some [⟨1, 10, [some 1, some 1]⟩, ⟨1, 11, [Option.none, some 2]⟩] := by
+  have e1 : mergeFramesF [[(⟨1, 10, [some 1, some 1]⟩ : RowF)], [⟨1, 11, [Option.none, some 2]⟩]] =
+      [⟨1, 10, [some 1, some 1]⟩, ⟨1, 11, [Option.none, some 2]⟩] := by
+    rw [mergeFramesF_single 1 _ _ (by decide) (by decide) (by decide)]; decide
+  simp only [historyFF, frameDemo, List.foldl_cons, List.foldl_nil, biMergeF, BiF, List.map_cons, List.map_nil, e1]
+
+/-- **the per-column `read_spec` fails on frames (default read)**: column `a` published `1` and then NaN - under a later stamp, in a
+    row whose column `b` changed.  The row is kept RAW, so the default read shows NaN for `a`: "a NaN never overrides an earlier
+    value" does not hold column by column.  The per-column log fold is `1`; `what='last'` does return `(1, 2)`. -/
+theorem frame_default_read_nan_overrides :
+    ∃ st, historyFF frameDemo = some st ∧
+      biReadF st Option.none (-1) = [(1, [Option.none, some 2])] ∧
+      specReadR (colF 0 (logRowsF frameDemo)) Option.none = [(1, some 1)] ∧
+      biReadFS 2 st Option.none .last = [(1, [some 1, some 2])] := by
+  refine ⟨_, frameDemo_store, ?_, ?_, ?_⟩
+  · rw [biReadF_single 1 _ (by decide) (by decide) (by decide)]; decide
+  · rw [specReadR_single 1 _ (by decide) (by decide)]; decide
+  · rw [biReadFS_single 2 1 _ (by decide) (by decide) (by decide)]; decide
+
+/-- `(1, 1)` stamped 10, `(5, 1)` stamped 11, `(NaN, 2)` stamped 11 again -/
+def frameDemo2 : List (Int × TSF) :=
+  [(10, [(1, [some 1, some 1])]), (11, [(1, [some 5, some 1])]), (11, [(1, [Option.none, some 2])])]
+
+theorem frameDemo2_store : historyFF frameDemo2 = some [⟨1, 10, [some 1, some 1]⟩, ⟨1, 11, [Option.none, some 2]⟩] := by
+  have e1 : mergeFramesF [[(⟨1, 10, [some 1, some 1]⟩ : RowF)], [⟨1, 11, [some 5, some 1]⟩]] =
+      [⟨1, 10, [some 1, some 1]⟩, ⟨1, 11, [some 5, some 1]⟩] := by
+    rw [mergeFramesF_single 1 _ _ (by decide) (by decide) (by decide)]; decide
+  have e2 : mergeFramesF [[(⟨1, 10, [some 1, some 1]⟩ : RowF), ⟨1, 11, [some 5, some 1]⟩], [⟨1, 11, [Option.none, some 2]⟩]] =
+      [⟨1, 10, [some 1, some 1]⟩, ⟨1, 11, [Option.none, some 2]⟩] := by
+    rw [mergeFramesF_single 1 _ _ (by decide) (by decide) (by decide)]; decide
+  simp only [historyFF, frameDemo2, List.foldl_cons, List.foldl_nil, biMergeF, BiF, List.map_cons, List.map_nil, e1, e2]
+
+/-- **... and `what='last'` loses a published value when two versions share a stamp**: `a = 5` was published under stamp 11, the
+    same-stamp successor `(NaN, 2)` replaces the whole ROW (`drop_duplicates(keep='last')`), and `5` is gone from the store:
+    `what='last'` reads `a = 1`, the per-column log fold is `5`. -/
+theorem frame_last_loses_value :
+    ∃ st, historyFF frameDemo2 = some st ∧
+      biReadFS 2 st Option.none .last = [(1, [some 1, some 2])] ∧
+      specReadR (colF 0 (logRowsF frameDemo2)) Option.none = [(1, some 5)] := by
+  refine ⟨_, frameDemo2_store, ?_, ?_⟩
+  · rw [biReadFS_single 2 1 _ (by decide) (by decide) (by decide)]; decide
+  · rw [specReadR_single 1 _ (by decide) (by decide)]; decide
 
 end Pyg.Props.C17
